@@ -3,9 +3,9 @@ package main
 import (
 	"fmt"
 	"go/ast"
-	"regexp"
 	"go/token"
 	"go/types"
+	"regexp"
 	"sort"
 	"strings"
 
@@ -806,6 +806,7 @@ func (e *enc) finish() {
 		}
 	}
 	done := map[*Axiom]bool{}
+	var axioms []string
 	for changed := true; changed; {
 		changed = false
 		for _, ax := range e.w.CS.Axioms {
@@ -827,29 +828,57 @@ func (e *enc) finish() {
 			env := e.newEnv()
 			env.pkg = ax.Pkg
 			env.st, env.old = e.entry, e.entry
+			before := len(e.asserts)
 			t, err := env.boolTerm(ax.Expr)
 			if err != nil {
 				e.contractError(ax.Clause, err)
 				continue
 			}
-			e.assume(t)
+			// facts produced while translating the axiom go with it
+			axioms = append(axioms, e.asserts[before:]...)
+			e.asserts = e.asserts[:before]
+			axioms = append(axioms, t)
 			e.assumptions["definitional axiom "+ax.Label] = true
 		}
+	}
+	if len(axioms) > 0 {
+		// axioms hold from the start: they are visible to every obligation (assumptions are flow ordered)
+		e.asserts = append(append([]string{}, axioms...), e.asserts...)
+		for _, o := range e.obls {
+			o.At += len(axioms)
+		}
+		e.entryAt += len(axioms)
 	}
 }
 
 // assumeIfaceRequires: a method that implements an interface method under contract is entered, through
 // that interface, only with the interface contract's preconditions established (they are checked at every
 // invoke site); static callers are checked against the method's own contract.
-func (e *enc) assumeIfaceRequires() {
-	f := e.f
+type ifaceImpl struct {
+	key string
+	fc  *FuncContract
+	tn  *types.TypeName
+	sig *types.Signature
+}
+
+// ifaceContracts: the interface-method contracts this method has to honour (it implements the interface).
+func (e *enc) ifaceContracts() []ifaceImpl { return e.ifaceContractsOf(e.f) }
+
+func (e *enc) ifaceContractsOf(f *ssa.Function) []ifaceImpl {
 	if f.Signature.Recv() == nil || len(e.w.CS.Ifaces) == 0 {
-		return
+		return nil
 	}
 	rt := f.Signature.Recv().Type()
-	for key, fc := range e.w.CS.Ifaces {
+	var res []ifaceImpl
+	var keys []string
+	for key := range e.w.CS.Ifaces {
+		keys = append(keys, key)
+	}
+	sort.Strings(keys)
+	for _, key := range keys {
+		fc := e.w.CS.Ifaces[key]
 		parts := strings.Split(key, ".")
-		if len(parts) != 3 || parts[2] != f.Name() || len(fc.Requires) == 0 {
+		if len(parts) != 3 || parts[2] != f.Name() {
 			continue
 		}
 		p := e.w.TPkgs[parts[0]]
@@ -864,28 +893,39 @@ func (e *enc) assumeIfaceRequires() {
 		if !ok || !types.Implements(rt, iface) {
 			continue
 		}
-		var m *types.Func
 		for i := 0; i < iface.NumMethods(); i++ {
 			if iface.Method(i).Name() == f.Name() {
-				m = iface.Method(i)
+				res = append(res, ifaceImpl{key, fc, tn, iface.Method(i).Type().(*types.Signature)})
 			}
 		}
-		if m == nil {
+	}
+	return res
+}
+
+func (e *enc) ifaceEnv(ii ifaceImpl, env *cenv) {
+	f := e.f
+	env.pkg = ii.fc.Pkg
+	env.vars["this"] = cval{e.mkIface(e.val(f.Params[0]), f.Params[0].Type()), "Iface", ii.tn.Type()}
+	for i := 0; i < ii.sig.Params().Len() && i+1 < len(f.Params); i++ {
+		cv := cval{e.val(f.Params[i+1]), e.sortOf(f.Params[i+1].Type()), f.Params[i+1].Type()}
+		if n := ii.sig.Params().At(i).Name(); n != "" && n != "_" {
+			env.vars[n] = cv
+		}
+		env.vars[fmt.Sprintf("arg%d", i)] = cv
+	}
+}
+
+// assumeIfaceRequires: a method reached through an interface may rely on the interface contract's
+// preconditions (every invoke site proves them).
+func (e *enc) assumeIfaceRequires() {
+	for _, ii := range e.ifaceContracts() {
+		if len(ii.fc.Requires) == 0 {
 			continue
 		}
-		sig := m.Type().(*types.Signature)
 		env := e.newEnv()
-		env.pkg = fc.Pkg
 		env.st, env.old = e.entry, e.entry
-		env.vars["this"] = cval{e.val(f.Params[0]), e.sortOf(f.Params[0].Type()), f.Params[0].Type()}
-		for i := 0; i < sig.Params().Len() && i+1 < len(f.Params); i++ {
-			cv := cval{e.val(f.Params[i+1]), e.sortOf(f.Params[i+1].Type()), f.Params[i+1].Type()}
-			if n := sig.Params().At(i).Name(); n != "" && n != "_" {
-				env.vars[n] = cv
-			}
-			env.vars[fmt.Sprintf("arg%d", i)] = cv
-		}
-		for _, c := range fc.Requires {
+		e.ifaceEnv(ii, env)
+		for _, c := range ii.fc.Requires {
 			t, err := env.boolTerm(c.Expr)
 			if err != nil {
 				e.contractError(c, err)
@@ -893,7 +933,39 @@ func (e *enc) assumeIfaceRequires() {
 			}
 			e.assume(t)
 		}
-		fc.Used = true
+		ii.fc.Used = true
+	}
+}
+
+// ifaceEnsuresObls: what callers through the interface are told, every implementer proves.
+func (e *enc) ifaceEnsuresObls(r *ssa.Return, R string, rets []string, rts []types.Type) {
+	for _, ii := range e.ifaceContracts() {
+		if len(ii.fc.Ensures) == 0 || ii.fc.Trusted {
+			continue
+		}
+		env := e.resultEnv(rets, rts)
+		// only the names of the interface signature are in scope
+		e.ifaceEnv(ii, env)
+		for k := range rets {
+			if k < ii.sig.Results().Len() {
+				if nm := ii.sig.Results().At(k).Name(); nm != "" && nm != "_" {
+					env.vars[nm] = env.vars[fmt.Sprintf("result.%d", k)]
+				}
+			}
+		}
+		for _, c := range ii.fc.Ensures {
+			t, err := env.boolTerm(c.Expr)
+			if err != nil {
+				e.contractError(c, err)
+				continue
+			}
+			pos := r.Pos()
+			if !pos.IsValid() {
+				pos = e.nearPos(r)
+			}
+			e.add("post", "iface:"+ii.key+":"+c.Label, pos, R, t)
+		}
+		ii.fc.Used = true
 	}
 }
 
